@@ -134,9 +134,9 @@ def djVisit : Expr → Outcome (OTree × OKind)
       let (a, ka) ← djVisit e
       -- `val = self._ensure_q(val)` : a bare field / literal is refused
       if ka == .field || ka == .value then .lib (.type_ "filter".toList)
+      else if op == .neg then .lib (.type_ "USub".toList)   -- no visit_USub: `None(val)` raises TypeError -> TypeException
       else if ka != .cond then .foreign "unmodelled"
-      else if op == .not_ then pure (on1 "not" a, .cond)
-      else .lib (.type_ "USub".toList)            -- no visit_USub: `None(val)` raises TypeError -> TypeException
+      else pure (on1 "not" a, .cond)
   | .named _ _ => .foreign "unmodelled"
   | .coll _ _ _ => .foreign "unmodelled"
   | .call f args =>
